@@ -1499,3 +1499,39 @@ Qed.
 Lemma contained_query_takes_merge_path c q :
   bbox_intersects c q = true -> takes_merge_path true (Some c) q = true.
 Proof. intros H. unfold takes_merge_path. rewrite H. reflexivity. Qed.
+
+(* ---- encoding of a stored tile under a base configuration (img_to_buf) *)
+
+(* globals.image.paletted false and image options that name no number of colours: no tile is quantised, whatever the
+   format - the PNG stored is the true colour image (lossless). *)
+Lemma true_colour_configuration_not_quantised png mixed has_alpha :
+  stored_with_palette None false png mixed has_alpha = false.
+Proof. unfold stored_with_palette, encode_colors. cbn [andb]. destruct (mixed && negb has_alpha); reflexivity. Qed.
+
+(* globals.image.paletted true (the default), PNG cache, no number of colours in the image options: 255 colours. *)
+Lemma paletted_configuration_quantises has_alpha :
+  encode_colors None true true false has_alpha = Some 255 /\ stored_with_palette None true true false has_alpha = true.
+Proof. split; reflexivity. Qed.
+
+(* image options that name a number of colours decide alone: the base configuration is not consulted. *)
+Lemma explicit_colors_ignore_base_configuration c p1 p2 png mixed has_alpha :
+  encode_colors (Some c) p1 png mixed has_alpha = encode_colors (Some c) p2 png mixed has_alpha.
+Proof. reflexivity. Qed.
+
+(* the two base configurations differ exactly on PNG caches without explicit colours: the case in which a creator
+   that encodes under another base configuration than the request's stores a different image. *)
+Lemma base_configuration_matters_iff colors png mixed has_alpha :
+  stored_with_palette colors true png mixed has_alpha <> stored_with_palette colors false png mixed has_alpha <->
+  colors = None /\ png = true /\ (mixed = false \/ has_alpha = true).
+Proof.
+  unfold stored_with_palette, encode_colors.
+  destruct colors as [c|], png, mixed, has_alpha; cbn; split; intros H;
+    try (exfalso; apply H; reflexivity); try discriminate;
+    try (destruct H as (H1 & H2 & [H3|H3]); discriminate);
+    try (repeat split; auto; fail).
+Qed.
+
+Example encode_colors_example :
+  stored_with_palette None true true false false = true /\ stored_with_palette None false true false false = false /\
+  stored_with_palette (Some 0) true true false false = false /\ stored_with_palette None true false true false = false.
+Proof. repeat split; reflexivity. Qed.
